@@ -146,6 +146,46 @@ Proof.
     exists c. rewrite (rx_only_findw h0 h r R). repeat split; auto; cbn; destruct R as [R1 [R2 [R3 [R4 [R5 R6]]]]]; congruence.
 Qed.
 
+(* _scroll / _scrollrectset: the children, then the walk towards the root, past the elder siblings at every level *)
+Lemma any_visible_spec : forall fuel h k l, chain h k l ->
+  match any_visible fuel k h with Ok _ h' => h' = h | Fault _ _ => False | NoFuel => True end.
+Proof.
+  induction fuel as [|f IH]; intros h k l Hc; [exact I|]. cbn [any_visible]. destruct Hc as [|s c l Hf Hc]; [reflexivity|].
+  unfold bind at 1. rewrite (getw_run h s c Hf). unfold bind at 1. specialize (IH h _ l Hc).
+  destruct (any_visible f (w_next c) h) as [r h'| |]; [|contradiction|exact I]. subst h'. reflexivity.
+Qed.
+Lemma sib_walk_spec : forall fuel h k l a, chain h k l ->
+  match sib_walk fuel k a h with Ok _ h' => h' = h | Fault _ _ => False | NoFuel => True end.
+Proof.
+  induction fuel as [|f IH]; intros h k l a Hc; [exact I|]. cbn [sib_walk]. destruct Hc as [|s c l Hf Hc]; [reflexivity|].
+  destruct (Pos.eqb s a); [reflexivity|]. unfold bind at 1. rewrite (getw_run h s c Hf). unfold bind at 1.
+  specialize (IH h _ l a Hc). destruct (sib_walk f (w_next c) a h) as [r h'| |]; [|contradiction|exact I]. subst h'. reflexivity.
+Qed.
+Lemma scroll_up_spec : forall D fuel a cov h, hinv D h -> anc h a root ->
+  match scroll_up fuel a cov h with
+  | Ok r h' => h' = h /\ forall top b, r = Some (top, b) -> top = root
+  | Fault _ _ => False
+  | NoFuel => True
+  end.
+Proof.
+  induction fuel as [|f IH]; intros a cov h HI Ha; [exact I|]. cbn [scroll_up].
+  destruct (live_some h a (anc_live_l h a root Ha)) as [c Hc]. unfold bind at 1. rewrite (getw_run h a c Hc).
+  destruct (negb (w_visible c)); [cbn; split; [reflexivity|discriminate]|]. destruct (w_parent c) as [p|] eqn:Hp.
+  - destruct (hinv_parent_live D h a c p HI Hc Hp) as [cp Hcp]. unfold bind at 1. rewrite (getw_run h p cp Hcp).
+    destruct (hi_kids D h HI p cp Hcp) as (l & Hch & _). unfold bind at 1.
+    pose proof (sib_walk_spec f h _ l a Hch) as Hs. destruct (sib_walk f (w_first cp) a h) as [u h'| |]; [|contradiction|exact I].
+    subst h'. apply IH; [exact HI|]. inversion Ha as [a' c' Hf' | a' c' p0 b Hf' Hp' Hap]; subst.
+    + rewrite Hc in Hf'. inversion Hf'; subst c'. rewrite (hi_root_parent D h HI c Hc) in Hp. discriminate.
+    + rewrite Hc in Hf'. inversion Hf'; subst c'. rewrite Hp in Hp'. inversion Hp'; subst p0. exact Hap.
+  - assert (Ea : root = a).
+    { inversion Ha as [a' c' Hf' | a' c' p0 b Hf' Hp' Hap]; subst; [reflexivity|].
+      rewrite Hc in Hf'. inversion Hf'; subst c'. congruence. }
+    subst a.
+    assert (Hir : w_isroot c = true) by (rewrite (hi_isroot D h HI root c Hc); apply Pos.eqb_refl).
+    unfold bind. unfold getr. unfold bind. rewrite (getw_run h root c Hc). rewrite Hir. cbn.
+    split; [reflexivity|]. intros top b E. inversion E. reflexivity.
+Qed.
+
 (* _focus_chain_changed: the walk towards the root, then the restore request *)
 Lemma focus_chain_changed_spec : forall D fuel w h0,
   hoare (fun h => h = h0 /\ hinv D h0 /\ (forall a, w = Some a -> findw h0 a <> None))
@@ -191,4 +231,29 @@ Proof.
   - destruct (w_parent c) as [p|] eqn:Hp; cbn; [|apply rx_only_refl].
     apply (IH p h0 h0). split; [reflexivity|]. split; [exact HI|].
     destruct (hinv_parent_live D h0 a c p HI Hf Hp) as [cp Hcp]. congruence.
+Qed.
+
+(* tickit_window_scrollrect: the walks, then the damage and the restore request at the root *)
+Lemma scrollrect_spec : forall D fuel w h0,
+  hoare (fun h => h = h0 /\ hinv D h0 /\ anc h0 w root) (scrollrect fuel w) (fun _ h' => rx_only h0 h').
+Proof.
+  intros D fuel w h0 h [E [HI Ha]]. subst h. unfold scrollrect.
+  destruct (live_some h0 w (anc_live_l h0 w root Ha)) as [c Hc]. unfold bind at 1. rewrite (getw_run h0 w c Hc).
+  destruct (hi_kids D h0 HI w c Hc) as (l & Hch & _). unfold bind at 1.
+  pose proof (any_visible_spec fuel h0 _ l Hch) as Hv.
+  destruct (any_visible fuel (w_first c) h0) as [cov h1| |]; [|contradiction|exact I]. subst h1.
+  unfold bind at 1. pose proof (scroll_up_spec D fuel w cov h0 HI Ha) as Hs.
+  destruct (scroll_up fuel w cov h0) as [r h1| |]; [|contradiction|exact I]. destruct Hs as [-> Htop].
+  destruct r as [[top b]|]; [|cbn; apply rx_only_refl]. destruct b; [cbn; apply rx_only_refl|].
+  rewrite (Htop top false eq_refl).
+  unfold bind. pose proof (expose_spec D fuel w h0 h0 (conj eq_refl (conj HI (anc_live_l h0 w root Ha)))) as He.
+  destruct (expose fuel w h0) as [u h1| |]; [|contradiction|exact I].
+  pose proof (hinv_rx_only D h0 h1 HI He) as HI1.
+  assert (Hl0 : findw h0 root <> None) by (eapply anc_live_r; eauto).
+  destruct (live_some h0 root Hl0) as [cr Hcr].
+  assert (Hir : w_isroot cr = true) by (rewrite (hi_isroot D h0 HI root cr Hcr); apply Pos.eqb_refl).
+  assert (Hcr1 : findw h1 root = Some cr) by (rewrite (rx_only_findw h0 h1 root He); exact Hcr).
+  pose proof (request_restore_spec D root h1 h1 (conj eq_refl (conj HI1 (ex_intro _ cr (conj Hcr1 Hir))))) as Hr.
+  destruct (request_restore root h1) as [u2 h2| |]; [|contradiction|exact I].
+  eapply rx_only_trans; eauto.
 Qed.
